@@ -405,6 +405,8 @@ def run(ctx) -> None:
     ctx.step(_rust_round_last, ctx)
     ctx.step(_rust_order_guards, ctx)
     ctx.step(_interval_assembly, ctx)
+    from . import C17
+    ctx.step(C17._interval_types, ctx, True)        # which halves reach _Interval, and that the three well-formed shapes are accepted
     from . import C09
     ctx.step(C09._duration_new, ctx)        # 'a remaining length equal to the exact value rounded to the microsecond': every parsed duration is built through Duration.__new__
     ctx.expect_min("FRACTION-SCALE", 6)
